@@ -1119,6 +1119,13 @@ func main() {
 			s.flip = rng.IntN(2) == 0
 			s.gap = []int{0, 300, 3000, 30000}[rng.IntN(4)]
 			s.parent, s.cancelFn = context.WithCancel(context.Background())
+			if rep%4 == 0 && c.cancel == cNever && c.style == stPrompt {
+				// a caller whose context can never be cancelled (Background with values): releasing the chosen
+				// member's context after Close is then entirely the unifier's own doing
+				type ctxTag struct{}
+				s.parent, s.cancelFn = context.WithValue(context.Background(), ctxTag{}, rep), func() {}
+				run.Count("variant/uncancellable_caller_context", 1)
+			}
 			if rep%4 == 2 && c.cancel == cBetween && c.style == stPrompt && !s.loose {
 				s.hook = &hookCtx{Context: s.parent, entered: make(chan struct{}), resume: make(chan struct{})}
 				s.parent = s.hook
@@ -1162,6 +1169,7 @@ func main() {
 		run.FloorCounter("entry/"+e+"/error", 1)
 	}
 	run.FloorCounter("variant/hooked_context_look_reached", 5)
+	run.FloorCounter("variant/uncancellable_caller_context", 20)
 	run.FloorCounter("loser_reader/closed", 1)
 	run.FloorCounter("loser_reader/closed_after_error_return", 1)
 	run.FloorCounter("winner_ctx/live_on_return", 1)
